@@ -55,7 +55,11 @@ fn deep_family(rng: &mut Rng) -> String {
 }
 
 fn alloc_family(rng: &mut Rng) -> String {
-    match rng.below(4) {
+    match rng.below(7) {
+        // what grows is a chain of partial applications / of closures / of excess-argument blocks
+        4 => "(let link prev k x = prev (x #Int+ k) in (rec let loop n acc = if n #Int< 1 then acc 0 else loop (n #Int- 1) (link acc n) in loop @N@ (\\x -> x)))".to_string(),
+        5 => "(rec let loop n acc = if n #Int< 1 then acc 0 else (let prev = acc in loop (n #Int- 1) (\\x -> prev (x #Int+ n))) in loop @N@ (\\x -> x))".to_string(),
+        6 => "(let pair a b = { a, b } in (rec let loop n acc = if n #Int< 1 then array.len acc else loop (n #Int- 1) (array.append acc [pair n]) in loop @N@ [pair 0]))".to_string(),
         0 => "(rec let loop n acc = if n #Int< 1 then array.len acc else loop (n #Int- 1) (array.append acc [n]) in loop @N@ [0])".to_string(),
         1 => "(rec let loop n acc = if n #Int< 1 then string.len acc else loop (n #Int- 1) (string.append acc \"ab\") in loop @N@ \"\")".to_string(),
         2 => "(rec let build n = if n #Int< 1 then Tip else Node (build (n #Int- 1)) \"x\" (Leaf n) in (let t = build @N@ in 1))".to_string(),
